@@ -1249,7 +1249,7 @@ class CalgaryCampinasMaskFunc(BaseMaskFunc):
         self.shapes: list[Number] = []
 
         for acceleration in accelerations:
-            self.masks[acceleration] = self.__load_masks(acceleration)
+            self.masks[acceleration] = self.__load_masks(int(acceleration))
 
     @staticmethod
     def circular_centered_mask(shape: tuple[int, int], radius: int) -> np.ndarray:
